@@ -1,0 +1,14 @@
+//go:build verif
+
+package srv
+
+import "sync/atomic"
+
+// verifHook, when set by a replay test, is called at the named yield points.
+var verifHook atomic.Value // func(string)
+
+func verifYield(point string) {
+	if h, ok := verifHook.Load().(func(string)); ok && h != nil {
+		h(point)
+	}
+}
